@@ -390,6 +390,16 @@ def check(case, ctx):
             p0 = os.path.join(tmp, "src.g2o")
             with open(p0, "w", newline="") as f:
                 f.write(GT.file_text(case["file"]))
+            if case.get("scratch_load_first", True):
+                # an earlier load of the same file whose result was edited in place and thrown away (a user trying a different
+                # sensor mounting on a scratch copy) must not leak into later loads
+                gscratch, _ = load_with_log(gs.Graph.from_g2o, p0, custom_edge_types=list(GT.CUSTOM_TYPES))
+                for e in gscratch._edges:
+                    off = getattr(e, "offset", None)
+                    if isinstance(off, np.ndarray):
+                        np.asarray(off)[...] = np.asarray(off) * 0.5 + 0.25
+                    np.asarray(e.information)[...] = np.asarray(e.information) * 3.0
+                del gscratch
             g0, _ = load_with_log(gs.Graph.from_g2o, p0, custom_edge_types=list(GT.CUSTOM_TYPES))
         else:
             g0 = build_prog(case)
